@@ -53,3 +53,15 @@ func init() {
 		Parts: []*PartSpec{{Name: "roundtrip", Harness: "c18", Shards: 16}},
 	})
 }
+
+func init() {
+	register("C13", &CheckSpec{
+		Level: "exploration",
+		Assumptions: []string{
+			"FIFOs/devices are not in the tree alphabet (reading one blocks; the size-versus-content clause is undecidable for them)",
+			"a given path means what it points to (os.Stat); entries beneath it are taken without following nested links",
+			"cases in which ScanPaths itself returns an error are counted as refused (the sender aborts before offering a manifest)",
+		},
+		Parts: []*PartSpec{{Name: "scan", Harness: "c13", Shards: 16}},
+	})
+}
